@@ -85,6 +85,8 @@ def run(r):
     for i, (_, c, _) in enumerate(cases):
         if c.get("model"):
             inp.append(f"{i}\t{c['model']}")
+        elif c.get("prog"):
+            inp.append(f"{i}\tPROG\t{c['strict']}\t{c['prog']}\t{c['ctxsx']}")
     mlines = r.driver("drive_c02", "\n".join(inp) + "\n")
     if mlines is None:
         return
@@ -181,6 +183,8 @@ def run(r):
         elif s == "W":
             r.hist["wrapper"][c["kind"]] += 1
             r.count("W:" + c["kind"] + json.dumps(c["t"], sort_keys=True), rf[0] == "OK")
+            if m is not None and (m[0] == "OK") != (rf[0] == "OK") or (m is not None and m[0] == "OK" and rf[0] == "OK" and m[2] != rf[2]):
+                r.model_disagreement(cj, res, "\t".join(m))
             if res != c["plain"]:
                 pt = c["plain"].split("\t")
                 r.oracle_failure(cj, f"body wrapped in {c['kind']} renders differently: "
@@ -233,8 +237,9 @@ def replay(r, path):
         rc, out, err = r.harness(exe, ["one", case])
         print(out)
         c = json.loads(case)
-        if c.get("model"):
-            m = r.driver("drive_c02", f"0\t{c['model']}\n")
+        if c.get("model") or c.get("prog"):
+            line = f"0\t{c['model']}\n" if c.get("model") else f"0\tPROG\t{c['strict']}\t{c['prog']}\t{c['ctxsx']}\n"
+            m = r.driver("drive_c02", line)
             if m:
                 f = m[0].split("\t")
                 print("--- model:", f[1], f[2] if len(f) > 2 else "", f[4] if len(f) > 4 else "")
